@@ -412,6 +412,7 @@ type Clause struct {
 
 type LoopSpec struct {
 	Invariants []*Clause
+	Assumes    []*Clause // assumed at the loop head, NOT checked (listed as assumptions)
 	Decreases  *Clause
 }
 
@@ -735,6 +736,8 @@ func loadSpecFile(db *SpecDB, file, pkg string) error {
 					ls.Invariants = append(ls.Invariants, c)
 				case "decreases":
 					ls.Decreases = c
+				case "assume":
+					ls.Assumes = append(ls.Assumes, c)
 				default:
 					return fmt.Errorf("%s:%d: bad loop clause kind %s", file, rl.line, fs[1])
 				}
